@@ -73,11 +73,12 @@ def Ledger.Matches (L : Ledger) (bs : List Block) : Prop :=
   ∀ x n, (x, n) ∈ L ↔ (⟨x, n, true⟩ : Block) ∈ bs
 
 /-- an operation inside the domain of the model (see ASSUMPTIONS of the check): `alloc(n)` with
-    `n ≥ 1`; `free(None)` or `free(x)` with `x` an address of the allocator's own range (any
-    address: live, already freed, never allocated, interior of a block) -/
+    `n ≥ 1`; `free(None)` or `free(x)` with any `x` below the end of the allocator's range (live,
+    already freed, never allocated, interior of a block, or below `addr_offset` such as a
+    hardware bus index; `x ≥ addr_offset + size` raises `IndexError` in the code) -/
 def Op.Valid (off size : Nat) : Op → Prop
   | .alloc n _ => 0 < n
-  | .free (some x) => off ≤ x ∧ x < off + size
+  | .free (some x) => x < off + size
   | .free none => True
 
 /-! ### what the property demands of one step, in terms of outputs and the ledger only -/
